@@ -8,10 +8,11 @@ Strings travel hex-encoded (two lower-case hex digits per byte, `-` for the empt
 * `norm <path>`                   → hex of `normalize path`
 * `host <remoteaddr>`             → `ok <hex>` or `err`  (`netutil.SplitHost`)
 * `req <base> <ua> <method> <path> <remote> (<name> <value>)*`
-    → `404` | `robots` | `500` | `proxy <path> <name>=<v>,<v>;…` over the watched header names.
+    → `404` | `robots` | `500` | `proxy-error` | `proxy <path> <name>=<v>,<v>;…` over the watched header names.
 * `wreq <base> <ua> <method> <target> <remote> (<name> <value>)*`
-    → `rejected` when `net/http` refuses the origin-form request target, otherwise as `req` with the
-      path that `parseTarget` derives from the raw target.
+    → `rejected` when `net/http` refuses the request target (any form: origin, absolute, `*`, the
+      authority of CONNECT), `unmodelled` for an absolute-form target whose authority is outside
+      `simpleAuthority`, otherwise as `req` with the path that `parseAnyTarget` derives from the raw target.
 * `fl <base> <ua> <events> (<method> <target> <remote> <nhdr> (<name> <value>)*)*`
     → what the backend receives, in order, under the schedule `<events>` (comma-separated `r<i>` =
       request `i` runs up to and including `Rewrite`, `s<i>` = the transport writes request `i`) over
@@ -47,7 +48,7 @@ def xClientIP : Str := ['X', '-', 'C', 'l', 'i', 'e', 'n', 't', '-', 'I', 'p']
 
 /-- header names reported by `req`. -/
 def watched : List Str :=
-  [hXConnectingIP, hXRequestID] ++ forwardingNames ++ [hUserAgent, xCustom, xClientIP]
+  [hXConnectingIP, hXRequestID] ++ forwardingNames ++ [hUserAgent, xCustom, xClientIP, hConnection, hUpgrade]
 
 def showHdrs (h : Hdrs) : String :=
   let items := watched.filterMap fun n =>
@@ -62,6 +63,7 @@ def showResp : Resp → String
   | .notFound => "404"
   | .robots => "robots"
   | .err500 => "500"
+  | .proxyErr => "proxy-error"
   | .proxied path h => "proxy " ++ hex path ++ " " ++ showHdrs h
 
 partial def parseReqs : List String → List Req
@@ -98,9 +100,10 @@ def step (s : Unit) : List String → Unit × String
     let r : Req := { method := unhex m, path := unhex p, remote := unhex remote, hdrs := parseHdrs hs }
     (s, showResp (serve e r))
   | "wreq" :: base :: ua :: m :: target :: remote :: hs =>
-    (s, match parseTarget (unhex target) with
-        | none => "rejected"
-        | some p =>
+    (s, match parseAnyTarget (unhex m) (unhex target) with
+        | .refused => "rejected"
+        | .unmodelled => "unmodelled"
+        | .path p =>
           let e : Env := { base := unhex base, reqID := reqID, ua := unhex ua }
           let r : Req := { method := unhex m, path := p, remote := unhex remote, hdrs := parseHdrs hs }
           showResp (serve e r))
